@@ -8,7 +8,8 @@ obs   : {"applied": bool, "out": [[t_ms, kind, ...], ...], "state": str, "now": 
          "flags": {...}, "txt": hex of the reason octets of an internally generated close frame written in this step}
 
 cfg   : proxy (client: explicit HTTP proxy), role, failByDrop, echo, openTO, closeTO, dropTO, pingInt, pingTO (all ms), pingSize, restart, t0 (ms)
-events: ["proxyok"] ["proxybad"] ["hs"] ["badhs"] ["sendClose", code|null, reasonhex|null] ["sendMessage"] ["sendPing"] ["sendPong"]
+events: ["proxyok"] ["proxybad"] ["hs"] ["badhs"] ["hsraise"] ["hsdeny"] (valid handshake, the application's onConnect raises an exception / ConnectionDeny)
+        ["sendClose", code|null, reasonhex|null] ["sendMessage"] ["sendPing"] ["sendPong"]
         ["beginMessage"] ["sendMessageFrame"] ["endMessage"]            (streaming API, modelled)
         ["peerFrag", cont, fin] ["peerHead"] ["peerTail"]              (fragments / a frame split over two reads, modelled)
         ["sendMessageSync"] ["sendChopped"] ["tickus", microseconds]   (send queue; not in the Gallina model)
@@ -157,6 +158,20 @@ class WireTok:
         return out
 
 
+class ConnectRaises:
+    """application mixin: onConnect raises when told to (hsraise: an ordinary exception, hsdeny: ConnectionDeny)"""
+    _on_connect = None
+
+    def onConnect(self, r):
+        if self._on_connect == "raise":
+            raise RuntimeError("onConnect: no acceptable subprotocol \u00e4\u20ac " + "x" * 150)
+        if self._on_connect == "deny":
+            from autobahn.websocket.types import ConnectionDeny
+            raise ConnectionDeny(ConnectionDeny.FORBIDDEN, "not for you")
+        sup = getattr(super(), "onConnect", None)
+        return sup(r) if sup else None
+
+
 class Case:
     def __init__(self, cfg):
         self.cfg = cfg
@@ -173,7 +188,7 @@ class Case:
         fkw = {}
         if cfg.get("proxy") and self.role == "client":
             fkw["proxy"] = {"host": "127.0.0.1", "port": 8080}     # explicit HTTP proxy: CONNECT first (STATE_PROXY_CONNECTING)
-        self.c = self.env.connect(self.role, options=opts, factory_kwargs=fkw)
+        self.c = self.env.connect(self.role, options=opts, factory_kwargs=fkw, protocol_mixin=ConnectRaises)
         self.log = self.c.log
         self.p = self.c.proto
         self.gone = False
@@ -317,6 +332,14 @@ class Case:
             if self.gone or st != "CONNECTING":
                 return False
             self.handshake(k == "hs")
+        elif k in ("hsraise", "hsdeny"):
+            if self.gone or st != "CONNECTING":
+                return False
+            self.p._on_connect = "raise" if k == "hsraise" else "deny"
+            try:
+                self.handshake(True)
+            finally:
+                self.p._on_connect = None
         elif k in ("proxyok", "proxybad"):
             if self.gone or st != "PROXY_CONNECTING":
                 return False
